@@ -95,6 +95,9 @@ def run(tier, seed, replay=None):
             else:
                 progs.append(gen_program(rng.fork(), {'big': False, 'vec_small': True, 'min_struct_fields': 2, 'nfun': 4 + i % 3,
                                                       'depth': 2 + i % 3}))
+    if not replay:
+        from gen.progs import oob_programs
+        progs = progs + oob_programs()      # Vec accesses that leave the bounds at chosen places (always run)
     ck.rule = ('generated accepted programs with division/remainder operands of every sign combination, string constants (ASCII), Vec '
                'elements below 2^30, structs with >= 2 fields (generators stay out of the four open classes, which are replayed from '
                'corpus/C04); distinct = distinct program text; non-trivial = both back ends ran and the run is not excluded')
